@@ -43,10 +43,11 @@ var propConfigs = map[string]*propConfig{
 		"transient fields by declaration: Conproc.CpID, Conproc.SharedHDLOps, Arch.Tag (assigned by the HDL writer before use)",
 		"not decided: 'simulates identically / regenerates byte-identical Verilog' (follows only if those depend on persisted fields alone), the textual round trip of the kbd, uart and vtextmem shared objects (parameters parsed with strings.Split; only their claim on the text prefix is proved), EventuallyCreateInstruction (trusted contract: it keeps registered opcodes in place and does not append when the name is already registered), encoding/json itself",
 	}},
-	"C14": {pkgs: []string{"./pkg/bmmatrix", "./pkg/bmqsim"}, extra: c14Canary, notes: []string{
+	"C14": {pkgs: []string{"./pkg/bmmatrix", "./pkg/bmqsim", "./pkg/bmline", "./pkg/bmmeta"}, extra: c14Canary, notes: []string{
+		"decided for the layering: QasmToBmMatrices hands BmMatrixFromOperation only layers in which no qubit is named twice (the precondition the matrix builder relies on), at both flush sites, for circuits of any length; the layer under construction is always exactly the contiguous run of source lines ending at the current line (no line skipped, duplicated or reordered) and its qubits are exactly those recorded as in use",
 		"decided for the software simulation: RunSoftwareSimulation gives every input state vector a buffer of its own: the output vectors are freshly allocated, pairwise distinct arrays, no input vector and no output already stored is written again (loop frame), and the input list is unchanged; MatrixVectorProductComplex and StateSize are trusted (float arithmetic / math.Pow)",
 		"decided (discrete kernel only): bmmatrix.SwapRowsColsComplex is exact data movement, result[i][j] == a[tau(i)][tau(j)] for the transposition tau=(x y), for well-formed square matrices of any size, leaving its argument untouched; NewBmMatrixSquareComplex returns a fresh, zeroed, well-formed matrix whose rows do not share storage; IdentityComplex is the identity pattern (float32 values are opaque: no floating-point arithmetic is interpreted)",
-		"not decided: that the emitted matrices multiply to the circuit's unitary and are unitary within tolerance (nonlinear float32 arithmetic is outside this family), swaps2baseSwaps (64-bit bit manipulation and a map; no bit-vector mode in the engine), BmMatrixFromOperation's argument reordering, QasmToBmMatrices' layering, the numeric content of the simulated state",
+		"not decided: that the emitted matrices multiply to the circuit's unitary and are unitary within tolerance (nonlinear float32 arithmetic is outside this family), swaps2baseSwaps (64-bit bit manipulation and a map; no bit-vector mode in the engine), BmMatrixFromOperation's argument reordering (trusted contract), termination of the layering loop (a 'nextop' pseudo-instruction or a gate naming one qubit twice is never consumed), the numeric content of the simulated state",
 		"defect F3 (two two-qubit gates on interleaved qubits in one layer compiled to the matrix of the adjacent circuit; repaired by a fix: commit) is watched on every run by replaying its recorded circuit on the real compiler; that replay is a test of one input, not a proof, and is not counted among the obligations",
 	}},
 	"C15": {pkgs: []string{"./pkg/simbox", "./pkg/bondmachine", "./pkg/procbuilder"}, notes: []string{
